@@ -137,8 +137,12 @@ impl Indexable for ast::BangOperator {
                 let list = values.get(1)?;
                 let predicate = values.get(2)?;
 
-                let list_typ = list.index(ctx)?;
-                let var_typ = list_typ.element_typ()?;
+                // the variable is bound even when the element type cannot be inferred
+                let list_typ = list.index(ctx);
+                let var_typ = list_typ
+                    .as_ref()
+                    .and_then(|it| it.element_typ())
+                    .unwrap_or(Type::Any);
 
                 let (var_name, var_define_loc) = match var.inner_values().next()?.simple_value() {
                     Some(ast::SimpleValue::Identifier(identifier)) => {
@@ -154,7 +158,7 @@ impl Indexable for ast::BangOperator {
                 predicate.index(ctx);
                 ctx.scopes.pop();
 
-                Some(list_typ)
+                list_typ
             }
             SyntaxKind::XFind => {
                 common::unexpect_type_annotation(ctx, self);
@@ -197,9 +201,12 @@ impl Indexable for ast::BangOperator {
                 let var = values.get(3)?;
                 let expr = values.get(4)?;
 
-                let init_typ = init.index(ctx)?;
-                let list_typ = list.index(ctx)?;
-                let list_elm_typ = list_typ.element_typ()?;
+                // the variables are bound even when their types cannot be inferred
+                let init_typ = init.index(ctx);
+                let list_elm_typ = list
+                    .index(ctx)
+                    .and_then(|it| it.element_typ())
+                    .unwrap_or(Type::Any);
 
                 let (acc_name, acc_define_loc) = match acc.inner_values().next()?.simple_value() {
                     Some(ast::SimpleValue::Identifier(identifier)) => {
@@ -217,7 +224,7 @@ impl Indexable for ast::BangOperator {
                 ctx.scopes.push(ScopeKind::XFoldl);
                 let variable_acc = Variable::new(
                     acc_name,
-                    init_typ.clone(),
+                    init_typ.clone().unwrap_or(Type::Any),
                     VariableKind::XFoldl,
                     acc_define_loc,
                 );
@@ -228,7 +235,7 @@ impl Indexable for ast::BangOperator {
                 expr.index(ctx);
                 ctx.scopes.pop();
 
-                Some(init_typ)
+                init_typ
             }
             SyntaxKind::XForEach => {
                 common::unexpect_type_annotation(ctx, self);
@@ -238,8 +245,11 @@ impl Indexable for ast::BangOperator {
                 let sequence = values.get(1)?;
                 let expr = values.get(2)?;
 
-                let sequence_typ = sequence.index(ctx)?;
-                let var_typ = sequence_typ.element_typ()?;
+                // the variable is bound even when the element type cannot be inferred
+                let var_typ = sequence
+                    .index(ctx)
+                    .and_then(|it| it.element_typ())
+                    .unwrap_or(Type::Any);
 
                 let (var_name, var_define_loc) = match var.inner_values().next()?.simple_value() {
                     Some(ast::SimpleValue::Identifier(identifier)) => {
